@@ -13,12 +13,12 @@ LEVEL = "model_checking"
 DESIGN_REF = "DESIGN.md section 4 / C15"
 CHUNK = 2
 RULE = ("ops = {fun, grad, fun_and_grad} x points {a, b, c, a' (equal to a, other object and "
-        "dtype)} + {scale:=1, scale:=2.5} + {caller overwrites the array it last passed}; "
+        "dtype), a~ (4 ulps from a)} + {scale:=1, scale:=2.5} + {caller overwrites the array it last passed}; "
         "user functions scribble on their argument; modes callable, 2-point, 3-point, cs "
         "(with bounds); model = one memo cell (point, has_f, has_g) and a scale; BFS over "
-        "all model states x 15 ops with every edge executed on a fresh real ScalarFunction "
+        "all model states x 18 ops with every edge executed on a fresh real ScalarFunction "
         "by replaying the state's shortest history, and ALL histories to depth 4 (quick) / "
-        "depth 6 over the 12 call ops + depth 5 over all 15 (thorough); oracle per step: "
+        "depth 6 over the 15 call ops + depth 5 over all 18 (thorough); oracle per step: "
         "value == fresh user value x current scale (bitwise; finite-difference gradient vs a "
         "fresh approx_derivative with the same options), user calls at the requested point "
         "== model expectation (0 if cached), nfev/ngev deltas == logged calls/computations; "
@@ -29,17 +29,19 @@ ASSUMPTIONS = [
     "scipy.optimize._numdiff.approx_derivative is the reference for finite-difference gradients",
 ]
 MODES = ("callable", "2-point", "3-point", "cs")
-CALLS = [(k, p) for k in ("fun", "grad", "fg") for p in ("a", "b", "c", "a2")]
+CALLS = [(k, p) for k in ("fun", "grad", "fg") for p in ("a", "b", "c", "a2", "an")]
 OTHER = [("scale", 1.0), ("scale", 2.5), ("mut", None)]
 OPS = CALLS + OTHER
-ABS = {"a": "a", "b": "b", "c": "c", "a2": "a"}
+ABS = {"a": "a", "b": "b", "c": "c", "a2": "a", "an": "an"}
 
 
 def pts(v):
-    s = [0.0, 0.25, -0.5, 1.0][v]
+    s = [0.0, 0.25, -0.375, 1.0][v]
     return {"a": np.array([0.5 + s, -1.25]), "b": np.array([1.125, 0.375 + s]),
             "c": np.array([0.0, 2.0 - s]),
-            "a2": np.array([0.5 + s, -1.25], dtype=np.float32)}
+            "a2": np.array([0.5 + s, -1.25], dtype=np.float32),
+            # a distinct point 4 ulps away from a (equality vs near-equality of points)
+            "an": np.array([(0.5 + s) + 4 * np.spacing(0.5 + s), -1.25])}
 
 
 def Fv(x):
@@ -154,7 +156,7 @@ def execute(hist, mode, v):
             errs.append((k, "ngev_delta", dict(delta=sf.ngev - ng0, model=exp_g)))
     impl = None
     try:
-        cell = [n for n in ("a", "b", "c") if np.array_equal(sf.x, P[n])]
+        cell = [n for n in ("a", "b", "c", "an") if np.array_equal(sf.x, P[n])]
         impl = (cell[0] if cell else "?", bool(sf.f_updated), bool(sf.g_updated),
                 float(sf.scaling_factor))
     except AttributeError:
